@@ -1,7 +1,7 @@
 """C12 - stabilizer measurement reports signed expectation values (structural clauses)."""
 from ..rules_flow import Flow, P4_inverse
 from ..rules_tomo import W14_returns, B1_B2_counts, W_fitter, S2_estimator, W1_W2_builders
-from ..rules_conv import U1_defined_attributes
+from ..rules_conv import U1_defined_attributes, W15_flag_forwarding
 
 
 def run(tree, rep, tier):
@@ -14,6 +14,7 @@ def run(tree, rep, tier):
     W1_W2_builders(rep, flow, want=("W2",), builders=["tomography.stabilizer_measurement_circuit"])
     P4_inverse(rep, flow, modulo_paulis=True)
     U1_defined_attributes(rep, flow, ['tomography'])
+    W15_flag_forwarding(rep, flow)
     rep.trusted += ["Q1", "Q2", "Q5"]
     rep.assumptions += ["Pauli.evolve(C, frame='s') = C P C^dagger and frame='h' (default) = C^dagger P C with Qiskit's sign convention (trusted)"]
     rep.decided += ["2^n entries: mask loop domain 1..2^n-1 plus identity entry (W6)", "keys are unsigned Paulis (W7)",
